@@ -226,6 +226,15 @@ class C06(Check):
                                 out.fail("C06.defaults", "%s: omitted fields encode differently from explicit zero / empty / first variant: %s vs %s" % (where, real_bytes.hex(), fb.hex()), "defaults")
                         except Exception as ex:
                             out.fail("C06.defaults", "%s: explicit defaults raised %s" % (where, type(ex).__name__), "defaults-raised")
+                    av = V.alt_composite(rng, sec, v)
+                    if not same_object_graph(av, v):
+                        out.stats["alternative_container_forms"] += 1
+                        try:
+                            ab = pydsdl.serialize(real, av)
+                            if ab != real_bytes:
+                                out.fail("C06.bytes", "%s: the same value with other accepted container types (%r) encodes to %s instead of %s" % (where, av, ab.hex(), real_bytes.hex()), "bytes:container-form")
+                        except Exception as ex:
+                            out.fail("C06.bytes", "%s: the same value with other accepted container types (%r) raised %s: %s" % (where, av, type(ex).__name__, ex), "container-form-raised:" + type(ex).__name__)
                     rv = V.relax(rng, sec, v)
                     if rv is not None and rv != v:
                         out.stats["relaxed_forms"] += 1
